@@ -130,6 +130,7 @@ func (f *formattedSpreaderPipeline[T]) spread(ctx context.Context, w io.Writer, 
 				}
 				if err := encode(toFormattedNode(root, f.formattedRoot(root.name))); err != nil {
 					errc <- err
+					return
 				}
 			}
 		}
